@@ -24,6 +24,15 @@ CLAIMED = {
    note="Trusted: TLC/SANY/CommunityModules (Bitwise xor override), the Go driver's gf/rs ops. GF(4096) operand pairs are sampled (16.7M pairs exceed TLC "
         "throughput); larger check-symbol counts (69..600) only in the thorough tier.",
    technique="TLA+ model checking of field laws and cache protocol + trace validation of recorded calls (TLC)", ref="5/C17"),
+ "C09": dict(
+   text="Scale.tla states the property declaratively (largest fitting factor, refusal exactly when it is 0, every admissible centred placement, fill elsewhere, "
+        "metadata/content/checksum preserved). TLC checks that ScaleAlgo.tla, the transcription of the code's arithmetic, satisfies it for every source shape and "
+        "request in a window including two-link chains; Apalache proves the factor/offset arithmetic for all naturals. Every pixel of every recorded Scale result "
+        "(synthetic sources of arbitrary shape with/without colour scheme and checksum, one real symbol of every family, chains of up to three rescalings through "
+        "the handle table, default and explicit fills) is validated by TraceScale.tla; sources are re-read afterwards and must be unchanged.",
+   note="Trusted: TLC/SANY/CommunityModules/Apalache, the Go projection (pixel colour classes by == against the reference colour list). Request sizes beyond the "
+        "recorded ones rest on the Apalache lemma plus the code matching ScaleAlgo on the window.",
+   technique="TLA+ model checking (algorithm vs declarative spec) + Apalache lemma + pixel-level trace validation (TLC)", ref="5/C09"),
 }
 
 NOT_YET = "check not built yet in this revision (planned per DESIGN.md section 10); not claimed"
